@@ -6,6 +6,7 @@ use crate::ctx::{hex_short, lc, Case, Ctx};
 use crate::gen;
 use crate::oracle::{classify, is_window, Out};
 use crate::refenc::{self, AHs, AMsg};
+use crate::visit::veq;
 use serde_json::json;
 use tls_parser::*;
 
@@ -44,7 +45,7 @@ fn run_case(ctx: &mut Ctx, ct: u8, ver: u16, payload: &[u8], expected: &[AMsg], 
         let r = parse_tls_plaintext(&rec);
         let out = classify(&r);
         match &r {
-            Ok((_, p)) => (out, Some(p.msg == exp), p.msg.len(), Some((p.hdr.record_type.0, p.hdr.version.0, p.hdr.len)), format!("{:?}", p.msg.iter().take(3).collect::<Vec<_>>())),
+            Ok((_, p)) => (out, Some(veq(&p.msg, &exp)), p.msg.len(), Some((p.hdr.record_type.0, p.hdr.version.0, p.hdr.len)), format!("{:?}", p.msg.iter().take(3).collect::<Vec<_>>())),
             Err(_) => (out, None, 0, None, String::new()),
         }
     });
@@ -67,7 +68,7 @@ fn run_case(ctx: &mut Ctx, ct: u8, ver: u16, payload: &[u8], expected: &[AMsg], 
         match &r {
             Ok((rem, m)) => Two {
                 out,
-                msgs_equal: Some(*m == exp),
+                msgs_equal: Some(veq(m, &exp)),
                 n_msgs: m.len(),
                 tail_ok: Some(is_window(rem, raw.data, raw.data.len() - tail_len.min(raw.data.len()), tail_len)),
                 dbg: format!("{:?}", m.iter().take(3).collect::<Vec<_>>()),
